@@ -121,15 +121,21 @@ type Features struct {
 	NoAssign          bool // no reassignment statements (besides while counters)
 	NoLitIdentity     bool // no 0/1/2/true/false literal as a direct operand of a binary operator
 	NoSelfOp          bool // no binary operator with two identical operands
+	BuiltinsDocStr    bool // split / join / replace / parseInt / parseFloat (documented in docs/API_REFERENCE.md; interpreter only)
 	ArrFork           bool // an array declaration is now and then followed by two different one-element extensions of it
 	SwapTwin          bool // now and then a declaration is followed by its operand-swapped twin
 	FreeVars          bool // free variables fi ff fs fb fa fo (bound by the caller at run time)
 }
 
+// argument pools for parseInt / parseFloat: documented spellings (decimal digits, an optional minus sign, a decimal
+// point), clear garbage, and spellings the documentation does not pin (the reference discards those)
+var parseIntPool = []string{"42", "-10", "0", "007", "12x", "", "4.5", " 7", "+5", "9223372036854775807", "9223372036854775808", "-9223372036854775808", "x", "1 2", "-", "--3", "1_000", "0x1F"}
+var parseFloatPool = []string{"3.5", "-2.25", "7", "0.125", "abc", "", "1e3", ".5", "5.", "NaN", "inf", "-0.5", "3.5.1", "1,5", "1000000.25", " 2.5"}
+
 func FullInterp() Features {
 	return Features{Floats: true, Strings: true, Arrays: true, Objects: true, While: true, For: true, Switch: true, Match: true, BreakContinue: true,
 		StatusReturn: true, Guards: true, UserFuncs: true, BuiltinsCore: true, BuiltinsInterp: true, LogicRhsMayFail: true, EqIntFloat: true, IllTyped: 4,
-		DivZero: true, IndexOOR: true, Mod: true, NestedReturn: true, DeclInBranch: true, ArrFork: true}
+		DivZero: true, IndexOOR: true, Mod: true, NestedReturn: true, DeclInBranch: true, ArrFork: true, BuiltinsDocStr: true}
 }
 
 type G struct {
@@ -428,6 +434,11 @@ func (g *G) expr2(t Ty, depth int) *Expr {
 			return &Expr{K: "call", S: "length", A: []*Expr{g.arg(TStr, depth-1)}}
 		case c == 10 && g.F.BuiltinsCore && g.F.Arrays:
 			return &Expr{K: "call", S: "length", A: []*Expr{g.arg(TArrInt, depth-1)}}
+		case c == 11 && g.F.BuiltinsDocStr && g.F.Strings && g.R.Intn(3) == 0:
+			if g.R.Intn(2) == 0 {
+				return &Expr{K: "call", S: "parseInt", A: []*Expr{{K: "call", S: "toString", A: []*Expr{g.arg(TInt, depth-1)}}}}
+			}
+			return &Expr{K: "call", S: "parseInt", A: []*Expr{{K: "str", S: parseIntPool[g.R.Intn(len(parseIntPool))]}}}
 		case c == 11 && g.F.BuiltinsInterp:
 			switch g.R.Intn(4) {
 			case 0:
@@ -452,6 +463,9 @@ func (g *G) expr2(t Ty, depth int) *Expr {
 	case TFloat:
 		if leaf {
 			return g.floatLit()
+		}
+		if g.F.BuiltinsDocStr && g.F.Strings && g.R.Intn(12) == 0 {
+			return &Expr{K: "call", S: "parseFloat", A: []*Expr{{K: "str", S: parseFloatPool[g.R.Intn(len(parseFloatPool))]}}}
 		}
 		switch g.R.Intn(6) {
 		case 0, 1, 2:
@@ -506,6 +520,17 @@ func (g *G) expr2(t Ty, depth int) *Expr {
 				st := g.R.Intn(6)
 				return &Expr{K: "call", S: "substring", A: []*Expr{g.arg(TStr, depth-1), {K: "int", I: int64(st)}, {K: "int", I: int64(st + g.R.Intn(5))}}}
 			}
+		case c == 8 && g.F.BuiltinsDocStr && g.R.Intn(2) == 0:
+			if g.R.Intn(2) == 0 {
+				// replace: every occurrence, left to right, non-overlapping; the searched text is never empty
+				old := []string{"a", "ab", "l", " ", "ä", "日", "--", "x", "aa"}[g.R.Intn(9)]
+				return &Expr{K: "call", S: "replace", A: []*Expr{g.arg(TStr, depth-1), {K: "str", S: old}, g.strLit()}}
+			}
+			at := TArrStr
+			if g.R.Intn(3) == 0 {
+				at = TArrInt
+			}
+			return &Expr{K: "call", S: "join", A: []*Expr{g.arg(at, depth-1), {K: "str", S: []string{",", " ", "-", "", ", ", "日"}[g.R.Intn(6)]}}}
 		case c == 8 && g.F.Match:
 			return g.matchExpr(TStr, depth-1)
 		case c == 9 && g.F.UserFuncs:
@@ -580,6 +605,9 @@ func (g *G) expr2(t Ty, depth int) *Expr {
 		et := TInt
 		if t == TArrStr {
 			et = TStr
+		}
+		if !leaf && t == TArrStr && g.F.BuiltinsDocStr && g.R.Intn(5) == 0 {
+			return &Expr{K: "call", S: "split", A: []*Expr{g.arg(TStr, depth-1), {K: "str", S: []string{",", " ", "-", "a", "日", ", ", "ab"}[g.R.Intn(7)]}}}
 		}
 		if !leaf && g.R.Intn(4) == 0 {
 			return &Expr{K: "bin", Op: "+", A: []*Expr{g.Expr(t, depth-1), g.Expr(t, depth-1)}}
@@ -1406,6 +1434,48 @@ func (p *Prog) RoutePath(prefix string) (pattern, request string) {
 }
 
 // Size counts AST nodes; Kinds lists the statement kinds used (for non-triviality rules).
+// Calls returns the names called anywhere in the program (builtins and user functions).
+func (p *Prog) Calls() map[string]bool {
+	out := map[string]bool{}
+	var we func(e *Expr)
+	we = func(e *Expr) {
+		if e == nil {
+			return
+		}
+		if e.K == "call" {
+			out[e.S] = true
+		}
+		for _, a := range e.A {
+			we(a)
+		}
+		for _, a := range e.Arms {
+			we(a.Lit)
+			we(a.Guard)
+			we(a.Body)
+		}
+	}
+	var ws func(ss []*Stmt)
+	ws = func(ss []*Stmt) {
+		for _, s := range ss {
+			we(s.E)
+			ws(s.Body)
+			ws(s.Else)
+			if s.ElseIf != nil {
+				ws([]*Stmt{s.ElseIf})
+			}
+			for _, c := range s.Cases {
+				we(c.Val)
+				ws(c.Body)
+			}
+		}
+	}
+	for _, f := range p.Funcs {
+		ws(f.Body)
+	}
+	ws(p.Body)
+	return out
+}
+
 func (p *Prog) Size() (nodes int, kinds map[string]bool) {
 	kinds = map[string]bool{}
 	var we func(e *Expr)
